@@ -106,6 +106,10 @@ class SectionData:
             s.previous.next = s.next
         if s.next is not None:
             s.next.previous = s.previous
+        if s is self.__root and s.next is not None:
+            self.__root = s.next
+        if s is self.__head and s.previous is not None:
+            self.__head = s.previous
 
     def of_type(self, t: Type[T]) -> Generator[T, None, None]:
         """
